@@ -32,6 +32,7 @@
 -/
 import AHP.Lemmas.TreeModelsCreate
 import AHP.Lemmas.TreeModelsXPath
+import AHP.Lemmas.RoundTrip
 namespace AHP.TreeModels
 open AHP AHP.TM AHP.AttrStores
 
@@ -103,6 +104,18 @@ example : Dom.outerHTML sampleDom = "<div id=\"a\" >x<p title=\"say &quot;hi&quo
   decide
 example : rawPk sampleDom = (ofDom sampleDom).toPk none (some 7) :=
   (consistent_element_agree sampleDom none (some 7) sampleDom_ok sampleDom_plain sampleDom_dict).1
+
+/-- The DOM model's own tree builder against the trees of model (1): what `Dom.mk` builds for a parsed node — the
+    leading empty indent block, identities, cached fields — is, identities forgotten and text normalised (`Node.norm`:
+    empty text dropped, adjacent text merged), the parsed node itself; and it serialises as that node. -/
+theorem dom_constructor_builds_the_parsed_tree (f : Dom.FN) (p o : Option Nat) (n : Nat) :
+    (ofDom (Dom.mk p o f n).1).toTree.norm = (fnNode f).norm
+    ∧ (PlainDom (Dom.mk p o f n).1 → Dom.outerHTML (Dom.mk p o f n).1 = (fnNode f).html) := by
+  refine ⟨mk_norm f p o n, fun hp => ?_⟩
+  rw [outerHTML_toTree _ hp, ← html_norm, mk_norm f p o n, html_norm]
+
+example : (fnNode sampleFN).html = "<div id=\"a\" >x<p title=\"say &quot;hi&quot;\" >y</p><br />z</div>".toList := by
+  decide
 
 /-- Beyond plain attributes (`class`, `style`, boolean strings — any store of model (1) that is a dict): the pickle
     model's and the formatter model's serialisers still print what model (1) prints.  AttrStores supplies the
